@@ -13,9 +13,26 @@ role = os.path.basename(sys.argv[0])
 s = socket.socket(socket.AF_UNIX, socket.SOCK_SEQPACKET)
 s.connect(os.environ["VSIM_SOCK"])
 env = {k: v for k, v in os.environ.items() if k.startswith(("JADE_", "SLURM_", "VSIM_NODE", "VSIM_HOST"))}
+evf = None
+events = None
+if role == "probe" and os.environ.get("VSIM_JOB_EVENTS") == "1" and os.environ.get("JADE_JOB_NAME") and os.environ.get("JADE_RUNTIME_OUTPUT"):
+    # a job that logs structured events the way `jade-internal run <extension>` does: its own events.log under job-outputs,
+    # opened once and kept open (a logging.FileHandler), one event at the start and one at the end
+    import datetime
+
+    name = os.environ["JADE_JOB_NAME"]
+    d = os.path.join(os.environ["JADE_RUNTIME_OUTPUT"], "job-outputs", name)
+    os.makedirs(d, exist_ok=True)
+    evf = open(os.path.join(d, "events.log"), "a")
+    t1 = datetime.datetime.now()
+    mk = lambda what, t: json.dumps({"category": "job", "data": {"pid": os.getpid(), "what": what}, "event_class": "StructuredLogEvent", "message": f"{name} {what}", "name": "probe_job", "source": name, "timestamp": str(t)}, sort_keys=True)
+    events = [mk("started", t1), mk("finished", t1 + datetime.timedelta(microseconds=1))]
+    evf.write(events[0] + "\n")
+    evf.flush()
 s.send(
     json.dumps(
         {
+            "events": events,
             "k": "hello",
             "pid": os.getpid(),
             "ppid": os.getppid(),
@@ -35,6 +52,9 @@ if not data:
 rep = json.loads(data)
 if rep.get("a") == "die":
     os.kill(os.getpid(), 9)
+if evf is not None:
+    evf.write(events[1] + "\n")
+    evf.close()
 if rep.get("out"):
     sys.stdout.write(rep["out"])
     sys.stdout.flush()
